@@ -4,6 +4,7 @@ import (
 	"context"
 	"fmt"
 	"runtime"
+	"strings"
 	"sync"
 	"sync/atomic"
 	"time"
@@ -130,6 +131,17 @@ func init() {
 				cse.TimeoutMS = 120000
 				cs = append(cs, cse)
 			}
+			nfc := 4
+			if tier == "thorough" {
+				nfc = 24
+			}
+			for i := 0; i < nfc; i++ {
+				cse := core.MkCase("C02", "filecancel", i, seed, map[string]int{"tick": pick(r, 60000, 150000), "cancel_ms": 60 + r.IntN(120), "by_duration": i % 2})
+				cse.Race = i%2 == 0
+				cse.Procs = pick(r, 2, 16)
+				cse.TimeoutMS = 120000
+				cs = append(cs, cse)
+			}
 			nh := 6
 			if tier == "thorough" {
 				nh = 36
@@ -167,7 +179,7 @@ func init() {
 			}
 			return cs
 		},
-		Kinds:  map[string]core.RunFunc{"script": c02Script, "hook": c02Hook, "stress": c02Stress, "counter": c02Counter, "run": c02Run, "limitrace": c02LimitRace, "hammer": c02Hammer},
+		Kinds:  map[string]core.RunFunc{"script": c02Script, "hook": c02Hook, "stress": c02Stress, "counter": c02Counter, "run": c02Run, "limitrace": c02LimitRace, "hammer": c02Hammer, "filecancel": c02FileCancel},
 		Floors: map[string]int64{"script_steps": 500, "steps_superseding": 50, "steps_stop_with_pending": 10, "steps_limit_silent": 10, "hook_schedules_formed": 6, "stress_drops": 1000, "porcupine_histories": 400},
 	})
 }
@@ -955,4 +967,78 @@ func c02Hammer(c *core.Case, o *core.Outcome) {
 	o.AddObs("hammer_ticks", int64(ticks))
 	o.Sig("hammer:w=%d:procs=%d:race=%v", w, c.Procs, c.Race)
 	o.Sample = map[string]any{"ticks": ticks, "workers": w, "requested": requested, "started": S, "dropped": D}
+}
+
+// c02FileCancel: a config-file run is stopped (cancel or max-duration) while a tick of a rate stage
+// is busy reporting a large superseded backlog as dropped. Whatever the run reports at its end must
+// be final: the dropped count must not move after Do returned.
+func c02FileCancel(c *core.Case, o *core.Outcome) {
+	var pp map[string]int
+	c.Params(&pp)
+	maxDur := "30s"
+	if pp["by_duration"] == 1 {
+		maxDur = fmt.Sprintf("%dms", pp["cancel_ms"])
+	}
+	y := fmt.Sprintf("scenario: verifScenario\nlimits:\n  max-duration: %s\n  concurrency: 1\n  max-iterations: 0\n  ignore-dropped: true\ndefault:\n  distribution: none\n  jitter: 0\nstages:\n- duration: 20s\n  mode: constant\n  rate: %d/20ms\n", maxDur, pp["tick"])
+	l := engine.NewLog()
+	ctx, cancel := context.WithCancel(context.Background())
+	defer cancel()
+	gate := make(chan struct{})
+	var started atomic.Int64
+	scenario := func(t *f1testing.T) f1testing.RunFn {
+		return func(t *f1testing.T) {
+			if started.Add(1) == 1 {
+				<-gate
+			}
+		}
+	}
+	// tick 0 is large (one request starts, the rest stays pending), tick 1 is small: it supersedes the
+	// backlog and is busy reporting it as dropped when the run is stopped; the stop drain itself is short
+	var requested atomic.Int64
+	hooks := &engine.Hooks{StageRate: func(_, k int, _ time.Time, v int) int {
+		if k == 0 {
+			v = pp["tick"]
+		} else {
+			v = 5
+		}
+		if ctx.Err() == nil {
+			requested.Add(int64(v))
+		}
+		if k == 1 {
+			if pp["by_duration"] == 0 {
+				go func() { time.Sleep(time.Duration(pp["cancel_ms"]%40) * time.Millisecond); cancel() }()
+			}
+			go func() { time.Sleep(time.Duration(pp["cancel_ms"]%40+30) * time.Millisecond); close(gate) }()
+		}
+		return v
+	}}
+	if pp["by_duration"] == 1 {
+		y = strings.Replace(y, "max-duration: "+maxDur, fmt.Sprintf("max-duration: %dms", 60+pp["cancel_ms"]%40), 1)
+	}
+	r := engine.Execute(ctx, engine.Spec{Mode: "filestages", YAML: y, CompletionMS: 20000}, l, scenario, hooks, nil)
+	if r.NewErr != nil {
+		o.Inconc("harness: %v", r.NewErr)
+		return
+	}
+	_, _, d0 := resultCounts(r)
+	fams, _ := engine.Gather(r.Registry)
+	m0 := engine.IterationCounts(fams)["dropped"]
+	time.Sleep(500 * time.Millisecond)
+	fams, _ = engine.Gather(r.Registry)
+	m1 := engine.IterationCounts(fams)["dropped"]
+	desc := fmt.Sprintf("file stage rate=%d/20ms stop=%dms byDuration=%v", pp["tick"], pp["cancel_ms"], pp["by_duration"] == 1)
+	o.Events = started.Load() + int64(m1)
+	if d0 != m0 || m1 != m0 {
+		o.Violate("filecancel-late-drops", "the run returned reporting %d dropped (metrics %d); 500 ms later the metrics carry %d: dropped iterations were still being reported after the run had returned (%s)", d0, m0, m1, desc)
+		return
+	}
+	if su, fa, _ := resultCounts(r); int64(su+fa+d0) > requested.Load()+5 || int64(su+fa+d0) < requested.Load()-10 {
+		o.Violate("filecancel-conservation", "ticks applied before the stop requested %d iterations (+- one small tick), the run reports %d started and %d dropped (%s)", requested.Load(), su+fa, d0, desc)
+		return
+	}
+	o.AddObs("stress_drops", int64(m1))
+	if m1 > 0 {
+		o.Sig("filecancel:tick=%d:byDuration=%v:race=%v", pp["tick"], pp["by_duration"] == 1, c.Race)
+	}
+	o.Sample = map[string]any{"case": desc, "dropped_at_return": d0, "dropped_500ms_later": m1}
 }
